@@ -72,17 +72,6 @@ where
     rw [abs_of_nonneg hv] at this; exact this
 
 
-theorem exp2_wf (fm : Bool) (z r : Nat) (h : exp2 fm z = .ok r) : WF r := by
-  unfold exp2 at h
-  dsimp only at h
-  cases hq : toI32Unchecked (sub (exp2Clamp z) C.exp2_f2) with
-  | ub => rw [hq] at h; cases h
-  | ok i => rw [hq] at h; injection h with h; rw [← h]; unfold exp2Val; exact mul_wf _ _
-
-theorem powf_wf (B : Build) (hB : B.fastmath = true) (x y r : Nat) (h : powf B x y = .ok r) : WF r := by
-  unfold powf at h; rw [if_pos hB] at h
-  exact exp2_wf _ _ _ h
-
 theorem cert_xvycc : finiteB C.xvycc_eotf_f0 = true ∧ ratOf C.xvycc_eotf_f0 = 0 ∧ finiteB C.xvycc_eotf_f1 = true ∧ ratOf C.xvycc_eotf_f1 = 1 ∧
     finiteB C.xvycc_inverse_eotf_f0 = true ∧ ratOf C.xvycc_inverse_eotf_f0 = 0 ∧ finiteB C.xvycc_inverse_eotf_f1 = true ∧ ratOf C.xvycc_inverse_eotf_f1 = 1 ∧
     C.rec_1886_eotf_f1 < 4294967296 ∧ C.rec_1886_inverse_eotf_f1 < 4294967296 := by decide +kernel
@@ -97,6 +86,7 @@ theorem in_unit (lo hi x : Nat) (hlo : finiteB lo = true ∧ ratOf lo = 0) (hhi 
   · rw [ge_iff x lo hx fl, vl, hlo.2]; simpa using h0
   · rw [le_iff x hi hx fh, vh, hhi.2]; simpa using h1
 
+section fast
 variable (B : Build) (hB : B.fastmath = true)
 include hB
 
@@ -134,5 +124,90 @@ theorem xvycc_to_gamma : CurveWithin (xvycc_inverse_eotf B) (10 / 24) := by
 theorem xvycc_curves :
     (∃ f, toLinearFn B .XVYCC = .ok f ∧ CurveWithin f (24 / 10)) ∧ (∃ g, toGammaFn B .XVYCC = .ok g ∧ CurveWithin g (10 / 24)) :=
   ⟨⟨_, rfl, xvycc_to_linear B hB⟩, ⟨_, rfl, xvycc_to_gamma B hB⟩⟩
+
+
+end fast
+
+/-! ### xvYCC for any build meeting the oracle -/
+
+/-- applying a curve to `|x|` and copying the sign back keeps the accuracy on `[0, 1]` (any bound) -/
+theorem sign_wrap_b (f : Nat → Out Nat) (γ ε : ℝ) (hγ : 0 < γ)
+    (hf : ∀ x : Nat, WF x → Finite x → 0 ≤ toReal x → toReal x ≤ 1 → ∃ r, f x = .ok r ∧ WF r ∧ Finite r ∧ |toReal r - (toReal x) ^ γ| ≤ ε) :
+    CurveWithinB (fun x => (f (F32.abs x)).bind fun r => .ok (copysign r x)) (fun X => X ^ γ) ε := by
+  intro x hxw hx h0 h1
+  obtain ⟨ha, hav⟩ := toReal_abs x hxw hx
+  rw [abs_of_nonneg h0] at hav
+  obtain ⟨r, hr1, hrw, hr2, hr3⟩ := hf (F32.abs x) (abs_wf x hxw) ha (by rw [hav]; exact h0) (by rw [hav]; exact h1)
+  rw [hav] at hr3
+  obtain ⟨hc1, hc2⟩ := copysign_val r x hrw hr2
+  refine ⟨copysign r x, by simp only [hr1, Out.bind], hc1, ?_⟩
+  simp only
+  rw [hc2]
+  have hv0 : 0 ≤ (toReal x) ^ γ := Real.rpow_nonneg h0 γ
+  by_cases hs : signOf x = true
+  · have hx0 : toReal x = 0 := by
+      obtain ⟨n, m, e, hd⟩ := hx
+      have hv := toReal_of_decode _ n m e hd
+      obtain ⟨s, k, f', hs', hk, hf', rfl⟩ := unpack x hxw
+      have hs1 : s = 1 := by
+        unfold signOf at hs
+        simp only [consts.2.2.2.2.2.2.2.1, decide_eq_true_eq] at hs
+        omega
+      rw [decode_pack s k f' hs' hk hf'] at hd
+      subst hs1
+      have hneg : n = true := by
+        (repeat' split at hd) <;> simp_all
+      rw [hv, hneg] at h0 ⊢
+      unfold valR at h0 ⊢
+      simp only [if_true] at h0 ⊢
+      have : (0:ℝ) ≤ (m:ℝ) * (2:ℝ) ^ e := by positivity
+      nlinarith
+    rw [hx0, Real.zero_rpow hγ.ne'] at hr3 ⊢
+    simp only [hs, if_true]
+    simp at hr3 ⊢
+    exact hr3
+  · simp only [hs, Bool.false_eq_true, if_false, one_mul]
+    exact le_trans (sign_wrap.abs_abs_sub_abs_le_abs_sub' (toReal r) ((toReal x) ^ γ) hv0) hr3
+
+section oracle
+variable (B : Build) (c0 c1 : ℝ) (ho : PowOracle B c0 c1)
+include ho
+
+/-- the power branch with the well-formedness of the result -/
+theorem pow_branch_ow (thr zero yb : Nat) (γ : ℝ) (hthr : Finite thr ∧ toReal thr = 0)
+    (hy : Finite yb) (hyγ : |toReal yb - γ| ≤ 1 / 10 ^ 6) (hγ1 : 35 / 100 ≤ γ) (hγ2 : γ ≤ 3)
+    (x : Nat) (hxw : WF x) (hx : Finite x) (h0 : 0 ≤ toReal x) (h1 : toReal x ≤ 1) :
+    ∃ r, (if lt x thr then Out.ok zero else powf B x yb) = .ok r ∧ WF r ∧ Finite r ∧ |toReal r - (toReal x) ^ γ| ≤ c0 + c1 * γ := by
+  rw [not_lt_zero x thr hx hthr h0]
+  simp only [Bool.false_eq_true, if_false]
+  exact ho x yb γ hxw hx h0 (by linarith) hy hγ1 hγ2 hyγ
+
+theorem xvycc_to_linear_o : CurveWithinB (xvycc_eotf B) (fun X => X ^ ((24:ℝ) / 10)) (c0 + c1 * (24 / 10)) := by
+  obtain ⟨a1, a2, a3, a4, _, _, _, _, _, _⟩ := cert_xvycc
+  obtain ⟨z1, z2, _, _, _, _, _, _, _, _, _, _, e1, e2, _⟩ := cert_exponents
+  obtain ⟨fy, vy⟩ := near_of _ _ e1 e2
+  have key := sign_wrap_b (rec_1886_eotf B) (24 / 10) (c0 + c1 * (24 / 10)) (by norm_num)
+    (fun x hxw hx h0 h1 => pow_branch_ow B c0 c1 ho _ _ _ (24 / 10) (zero_of _ z1 z2) fy (by push_cast at vy; exact vy) (by norm_num) (by norm_num) x hxw hx h0 h1)
+  intro x hxw hx h0 h1
+  obtain ⟨r, hr1, hr2, hr3⟩ := key x hxw hx h0 h1
+  refine ⟨r, ?_, hr2, hr3⟩
+  unfold xvycc_eotf
+  rw [in_unit _ _ x ⟨a1, a2⟩ ⟨a3, a4⟩ hx h0 h1]
+  simpa using hr1
+
+theorem xvycc_to_gamma_o : CurveWithinB (xvycc_inverse_eotf B) (fun X => X ^ ((10:ℝ) / 24)) (c0 + c1 * (10 / 24)) := by
+  obtain ⟨_, _, _, _, a1, a2, a3, a4, _, _⟩ := cert_xvycc
+  obtain ⟨_, _, z1, z2, _, _, _, _, _, _, _, _, _, _, e1, e2, _⟩ := cert_exponents
+  obtain ⟨fy, vy⟩ := near_of _ _ e1 e2
+  have key := sign_wrap_b (rec_1886_inverse_eotf B) (10 / 24) (c0 + c1 * (10 / 24)) (by norm_num)
+    (fun x hxw hx h0 h1 => pow_branch_ow B c0 c1 ho _ _ _ (10 / 24) (zero_of _ z1 z2) fy (by push_cast at vy; exact vy) (by norm_num) (by norm_num) x hxw hx h0 h1)
+  intro x hxw hx h0 h1
+  obtain ⟨r, hr1, hr2, hr3⟩ := key x hxw hx h0 h1
+  refine ⟨r, ?_, hr2, hr3⟩
+  unfold xvycc_inverse_eotf
+  rw [in_unit _ _ x ⟨a1, a2⟩ ⟨a3, a4⟩ hx h0 h1]
+  simpa using hr1
+
+end oracle
 
 end C03
